@@ -336,6 +336,7 @@ type acctScenario struct {
 	usedSyms []string // zero half all over
 	reqs     []int32
 	extras   bool // partial-record trigger, release without usage, recharge of rg2
+	split    bool // used units reported in two online containers
 }
 
 func mkCreate(u int, cons string) Op {
@@ -418,6 +419,27 @@ func (sc acctScenario) alphabet(disciplined bool) func(info json.RawMessage, dep
 							ops = append(ops, Op{K: "update", S: si, MUs: mus, Seq: seq})
 						}
 					}
+					if us == "all" && (sc.extras || sc.split) {
+						// the units used since the last report split over two online containers of one unit usage
+						// (e.g. a tariff change in between): the sum is what has been used
+						mus := mkMUs(sc.reqs[0])
+						split := false
+						for i := range mus {
+							c := mus[i].Conts[0]
+							if c.Vol < 2 {
+								continue
+							}
+							a := c.Vol / 3
+							c1, c2 := c, c
+							c1.Vol, c1.Up, c1.Down = a, a/3, a-a/3
+							c2.Vol, c2.Up, c2.Down, c2.Seq = c.Vol-a, (c.Vol-a)/3, (c.Vol-a)-(c.Vol-a)/3, c.Seq+60
+							mus[i].Conts = []Cont{c1, c2}
+							split = true
+						}
+						if split {
+							ops = append(ops, Op{K: "update", S: si, MUs: mus, Seq: seq})
+						}
+					}
 				}
 			}
 			if sc.extras {
@@ -449,7 +471,7 @@ func acctScenarios(prop, tier string) []acctScenario {
 	if prop == "C01" {
 		scs = []acctScenario{
 			{name: "1sess-rg1-u2-b1000", accounts: []Account{{supiA, 1, "1000", "2"}}, prefix: []Op{mkCreate(0, "smf1")}, depth: 4,
-				rgs: one, usedSyms: []string{"zero", "half", "all", "over"}, reqs: []int32{50, 100}},
+				rgs: one, usedSyms: []string{"zero", "half", "all", "over"}, reqs: []int32{50, 100}, split: true},
 			{name: "1sess-rg1-u3-b150", accounts: []Account{{supiA, 1, "150", "3"}}, prefix: []Op{mkCreate(0, "smf1")}, depth: 5,
 				rgs: one, usedSyms: []string{"zero", "all", "over"}, reqs: []int32{100}},
 			{name: "1sess-rg1-u1-b0", accounts: []Account{{supiA, 1, "0", "1"}}, prefix: []Op{mkCreate(0, "smf1")}, depth: 4,
@@ -476,7 +498,7 @@ func acctScenarios(prop, tier string) []acctScenario {
 			reqs = append(reqs, 1431655766) // x 3 = 2^32 + 2: the price of the request wraps around 32 bits
 		}
 		scs = append(scs, acctScenario{name: "1sess-b" + a.b + "-u" + a.u, accounts: []Account{{supiA, 1, a.b, a.u}}, prefix: []Op{mkCreate(0, "smf1")}, depth: a.d,
-			rgs: one, usedSyms: []string{"zero", "half", "all"}, reqs: reqs})
+			rgs: one, usedSyms: []string{"zero", "half", "all"}, reqs: reqs, split: a.b == "1000" || a.b == "200" || a.b == "150"})
 	}
 	scs = append(scs, acctScenario{name: "2sess-b300-u2", accounts: []Account{{supiA, 1, "300", "2"}}, depth: 4,
 		rgs: one, usedSyms: []string{"zero", "all"}, reqs: []int32{100}, twoSess: true})
